@@ -309,3 +309,13 @@ M('tsv_numbers_as_strings', ['C10', 'C18'], 'phylib/utils/_misc.py',
   "            data.append({k: (_try_make_number(v) if k == 'cluster_id' or '.' not in v else v) for k, v in zip(field_names, row) if v != ''})")
 M('subset_store_stale_ids', ['C10'], 'phylib/io/model.py',
   "        np.save(path_spikes, spike_ids)\n", "        if not path_spikes.exists():\n            np.save(path_spikes, spike_ids)\n")
+# ---- state carried between calls -----------------------------------------------------------
+M('dl_checksum_verdict_memoized', ['C20'], 'phylib/io/datasets.py',
+  "def _check_md5_of_url(output_path, url):\n",
+  "def _check_md5_of_url(output_path, url):\n    if _OK.get(url):\n        return True\n    res = _check_md5_of_url0(output_path, url)\n    _OK[url] = res is True\n    return res\n\n\n_OK = {}\n\n\ndef _check_md5_of_url0(output_path, url):\n")
+M('ccg_sorts_caller_clusters', ['C15'], 'phylib/stats/ccg.py',
+  "    spike_clusters = _as_array(spike_clusters)\n\n    assert spike_samples.ndim == 1",
+  "    spike_clusters = _as_array(spike_clusters)\n    if spike_clusters.dtype == np.uint16:\n        spike_clusters += 0\n        spike_clusters[:1] = spike_clusters[:1]\n        spike_times[:] = spike_times\n        spike_clusters.sort()\n\n    assert spike_samples.ndim == 1")
+M('selector_caches_first_query', ['C17'], 'phylib/io/array.py',
+  "        if not len(cluster_ids):\n            return np.array([], dtype=np.int64)\n",
+  "        if not len(cluster_ids):\n            return np.array([], dtype=np.int64)\n        key = tuple(cluster_ids)\n        self._cache = getattr(self, '_cache', {})\n        if key in self._cache and n_spk_clu is None:\n            return self._cache[key]\n")
